@@ -258,7 +258,7 @@ func TestVerifC08PeriodSeq(t *testing.T) {
 		wg.Add(1)
 		go func() {
 			defer wg.Done()
-			srv, err := newC08Srv()
+			srv, err := newC08Srv("c08p")
 			if err != nil {
 				m.Inconclusive("miniredis: %v", err)
 				return
@@ -302,7 +302,7 @@ func TestVerifC08PeriodRace(t *testing.T) {
 	m := vk.New(t, "C08", "period limiter under 32 concurrent callers: exact multiset of codes per key and window; real-time order via sequence stamps; race detector")
 	defer m.Done()
 	defer c08Wall(m, time.Now())
-	srv, err := newC08Srv()
+	srv, err := newC08Srv("c08r")
 	if err != nil {
 		m.Inconclusive("miniredis: %v", err)
 		return
